@@ -209,20 +209,23 @@ def compile_check(exprs):
     return bad
 
 
-def network_level(res, model, rng, n):
+def network_level(res, model, rng, n, groups=None):
     """the coefficient written for reaction i of a NETWORK is reaction i's own law: groups of reactions with the same
     reactants, products and window (they compare equal) but different coefficients, types and source formats, through
     TemplateLoader._assign_rates (the list EvalRates is rendered from)"""
     from naunet.templateloader import TemplateLoader
     emitting = [(f, c, sp) for f, c, sp in cases() if (f, c) in LAWS]
-    for k in range(n):
-        group = []
-        f0 = rng.choice(["kida", "umist", "naunet", "leeds", "uclchem"])
-        for _ in range(rng.randint(2, 4)):
-            f, c, sp = rng.choice([x for x in emitting if x[0] == f0 or rng.random() < 0.3])
-            cls = [rng.choice(CLASSES[:2] if rng.random() < 0.8 else CLASSES) for _ in range(3)]
-            mag = [abs(rng.choice(MAGS)[j]) * rng.choice([1.0, 1.5, 2.0, 7.0]) for j in range(3)]
-            group.append((f, c, sp, cls, mag))
+    for k in range(n if groups is None else len(groups)):
+        if groups is not None:
+            group = [(f, c, sp, cl, [float(x) for x in mg]) for f, c, sp, cl, mg in groups[k]]
+        else:
+            group = []
+            f0 = rng.choice(["kida", "umist", "naunet", "leeds", "uclchem"])
+            for _ in range(rng.randint(2, 4)):
+                f, c, sp = rng.choice([x for x in emitting if x[0] == f0 or rng.random() < 0.3])
+                cls = [rng.choice(CLASSES[:2] if rng.random() < 0.8 else CLASSES) for _ in range(3)]
+                mag = [abs(rng.choice(MAGS)[j]) * rng.choice([1.0, 1.5, 2.0, 7.0]) for j in range(3)]
+                group.append((f, c, sp, cls, mag))
         objs = [make(f, c, value(cl[0], mg[0]), value(cl[1], mg[1]), value(cl[2], mg[2]), sp) for f, c, sp, cl, mg in group]
         case = {"kind": "c05-network", "group": [[f, c, sp, cl, [repr(x) for x in mg]] for f, c, sp, cl, mg in group]}
         try:
@@ -323,5 +326,12 @@ def replay(rp, info):
             print("C tokens:", toks)
             print("replay:", "FAILS" if bad else "passes (token check)")
             return 1 if bad else 0
+    if case.get("kind") == "c05-network":
+        res = fw.Result("C05", "quick", 0)
+        network_level(res, fw.Model() if info["ok"] else None, None, 0, groups=[case["group"]])
+        for v in res.violations:
+            print(v["kind"], v["what"][:800])
+        print("replay:", "FAILS" if res.violations else "passes")
+        return 1 if res.violations else 0
     print("replay: nothing to replay")
     return 0
